@@ -26,6 +26,8 @@ mod ninja;
 mod serde_bool_helpers;
 mod task_runner;
 mod utils;
+#[cfg(kaspar030_laze_verif)]
+mod verif_oracle;
 
 use model::{Context, ContextBag, Dependency, Module, Rule, Task, TaskError};
 
@@ -89,6 +91,10 @@ fn ninja_run(
 }
 
 fn main() {
+    #[cfg(kaspar030_laze_verif)]
+    if std::env::var_os("LAZE_VERIF_ORACLE").is_some() {
+        std::process::exit(verif_oracle::serve());
+    }
     let result = try_main();
     match result {
         Err(e) => {
